@@ -92,7 +92,14 @@ fn populate(dir: &Path, rng: &mut Rng, depth: usize, counter: &mut usize, hostil
         *counter += 1;
         match kind {
             0 => {
-                let src = if hostile && rng.chance(1, 6) { "\u{0}\u{ff}garbage".to_string() } else { pooled_contract(rng, pool) };
+                let src = if hostile && rng.chance(1, 6) {
+                    "\u{0}\u{ff}garbage".to_string()
+                } else if rng.chance(1, 9) {
+                    // an eligible file with nothing in it (or only blanks / a comment): accepted by the parser, no findings
+                    ["", "  \n\t\n", "// nothing\n"][rng.below(3)].to_string()
+                } else {
+                    pooled_contract(rng, pool)
+                };
                 let _ = std::fs::write(&p, src);
             }
             1 => {
@@ -186,6 +193,32 @@ pub fn dir_requests(ctx: &mut Ctx, rng: &mut Rng) {
         let depth = 1 + rng.below(3);
         let mut pool: Vec<String> = vec![];
         populate(&dir, rng, depth, &mut counter, hostile, &mut pool);
+        // two trees in five: symbolic links inside the analysed tree to a directory and to a file that lie outside it
+        // (the code follows them: `Path::is_dir`, `read_to_string`)
+        let ext = root.join(format!("ext{}", k));
+        if k % 5 == 3 || k % 5 == 1 {
+            std::fs::create_dir_all(&ext).unwrap();
+            populate(&ext, rng, 1, &mut counter, false, &mut pool);
+            let _ = std::fs::write(ext.join("Linked.sol"), pooled_contract(rng, &mut pool));
+            let mut holders: Vec<PathBuf> = vec![dir.clone()];
+            if let Ok(rd) = std::fs::read_dir(&dir) {
+                for e in rd.flatten() {
+                    if e.path().is_dir() {
+                        holders.push(e.path());
+                    }
+                }
+            }
+            let h = holders[rng.below(holders.len())].clone();
+            let link_name = ["vendor", "lib.sol", "linked"][rng.below(3)];
+            if std::os::unix::fs::symlink(&ext, h.join(link_name)).is_ok() {
+                ctx.count("dir_trees_with_symlinked_directory", 1);
+            }
+            let h2 = holders[rng.below(holders.len())].clone();
+            let file_link = ["Ln.sol", "ln.t.sol", "ln.txt"][rng.below(3)];
+            if std::os::unix::fs::symlink(ext.join("Linked.sol"), h2.join(file_link)).is_ok() {
+                ctx.count("dir_trees_with_symlinked_file", 1);
+            }
+        }
         let mut built = Built { enc: String::new(), sources: BTreeMap::new() };
         encode(&dir, &mut built);
         let target = dir.to_str().unwrap().to_string();
@@ -244,6 +277,7 @@ pub fn dir_requests(ctx: &mut Ctx, rng: &mut Rng) {
         };
         ctx.line(&["DIR", cat, &sel.join(","), &built.enc, &gt.join("|"), &imp]);
         let _ = std::fs::remove_dir_all(&dir);
+        let _ = std::fs::remove_dir_all(&ext);
     }
     let _ = std::fs::remove_dir_all(&root);
 }
